@@ -137,7 +137,7 @@ func cmdSweep(args []string) {
 			continue
 		}
 		for _, o := range r.Q.obligs {
-			if o.Status == "proved" || o.Kind == "safe.nil" || o.Kind == "cover" || o.Kind == "pre" {
+			if o.Status == "proved" || (os.Getenv("GOVC_SWEEP_ALL") == "" && (o.Kind == "safe.nil" || o.Kind == "cover" || o.Kind == "pre")) {
 				continue
 			}
 			fmt.Printf("%s %s %s:%d %s\n", o.Status, o.Name, o.Pos.Filename, o.Pos.Line, o.Comment)
